@@ -96,11 +96,37 @@ def c06(ctx):
     elif rp['kind'] == 'client':
         twin = G.run_client_case()
         r = G.run_client_case(rp['point'], rp['type'], body)
+    elif rp['kind'] == 'clear':
+        # cleartext injection by the MITM during the first key exchange
+        from harness.drivers import transport as T
+        from checks.c06 import ClearInjector
+        t, b = next((t, b) for vname, t, b in G.variants(rp['class'])
+                    if vname == 'wellformed')
+        payloads = [b'ok\n']
+        m = ClearInjector(rp['dir'], rp['pos'], [(t, b)])
+        r = T.run_session(payloads, mitm=m)
+        ctx.count(('replay', 'clear'))
+        late = [x for x in (m.after or ()) if x not in (1, 3)]
+        print('outcome:', r['outcome'], 'fired:', m.fired, 'emitted by the '
+              'receiver after the forged packet:', m.after)
+        if sig.get('clause') == 'AnsweredOutOfPhase':
+            if late:
+                ctx.violation(sig, f'the receiver answered the refused '
+                              f'cleartext {rp["class"]} with {late}',
+                              replay=rp)
+        elif m.fired and r['outcome'] == 'ok' and r['echoed'] == payloads:
+            ctx.violation(sig, 'the cleartext injection went unnoticed under '
+                          'strict key exchange', replay=rp)
+        return
     else:
         raise SystemExit(f'replay kind {rp["kind"]} is not supported here')
     ctx.count(('replay', rp['kind']))
     print('twin  :', {k: twin[k] for k in twin if k != 'loop_exceptions'})
     print('replay:', r)
+    late = [x for x in (r.get('after_inj') or ()) if x not in (1, 3)]
+    if sig.get('clause') == 'AnsweredOutOfPhase' and late:
+        ctx.violation(sig, f'the refused message was answered with {late}',
+                      replay=rp)
     closed = r.get('closed') or str(r.get('outcome', '')).startswith('error')
     same = all(r.get(k) == twin.get(k) for k in ('seen', 'log', 'outcome',
                                                  'requests') if k in twin)
